@@ -19,7 +19,8 @@ RULE = ("histories (Hypothesis RuleBasedStateMachine, <= 20 / 40 steps) over a b
         "exception type) is compared with the first outcome recorded for the same combination "
         "in this history and with the outcome in pristine forked children under PYTHONHASHSEED "
         "0 and 1 (thorough 0-3). Non-trivial: the history contains a write on a pooled writer "
-        "after a different set, or a raising write.")
+        "after a different set, or a raising write."
+        ' Further rules: a failed write followed by another set with the same writer; a near twin with the same writer; the same length relativized along both axes against the same number in two writes.')
 ASSUMPTIONS = [
     "TranscriptWriter is not exercised (needs nltk, which is not installed in this sandbox)",
     "an exception counts as an outcome: the same combination must raise the same exception type",
@@ -92,8 +93,8 @@ def ctor_strategy(name):
     if name in ("srt", "microdvd", "scc", "dfxp-legacy"):
         return st.just({})
     base = {"relativize": st.booleans(), "fit_to_screen": st.booleans(),
-            "video_width": st.sampled_from([None, 640, 1920]),
-            "video_height": st.sampled_from([None, 360, 1080])}
+            "video_width": st.sampled_from([None, 640, 1920, 480, 1080]),      # (also square videos)
+            "video_height": st.sampled_from([None, 360, 1080, 480, 640])}
     if name in ("dfxp", "dfxp-single"):
         base["write_inline_positioning"] = st.booleans()
     return st.fixed_dictionaries(base)
@@ -332,6 +333,33 @@ def machine(tier, hook):
             j = len(self.st.sets) - 1
             self._do({"op": "write", "set_i": i, "writer": name, "ctor": ctor, "call": {}, "pooled": True})
             self._do({"op": "write", "set_i": j, "writer": name, "ctor": ctor, "call": {}, "pooled": True})
+
+        @rule(data=st.data(), name=st.sampled_from(["dfxp", "webvtt", "sami", "dfxp-single"]))
+        def same_length_on_both_axes(self, data, name):
+            """Two writes in one process in which the same absolute length is relativized along
+            different axes against the same number (a width that equals the other write's height)."""
+            unit = data.draw(st.sampled_from(["c", "c", "px", "em"]))
+            v = data.draw(st.sampled_from([1, 2, 4, 5]))
+            n = data.draw(st.sampled_from([480, 640, 1080]))
+
+            def mk(origin):
+                lay = {"origin": origin, "extent": None, "padding": None, "align": None, "webvtt": None}
+                return {"langs": [{"code": "en", "layout": lay if name == "sami" else None,
+                                   "cues": [{"start": 0, "end": 900000, "nodes": [{"t": "x"}], "style": {},
+                                             "layout": lay}]}], "styles": {}, "layout": lay if name == "sami" else None}
+            a = mk([[v, unit], [0, "%"]])
+            b = mk([[0, "%"], [v, unit]])
+            ca = {"relativize": True, "fit_to_screen": False, "video_width": n, "video_height": 360}
+            cb = {"relativize": True, "fit_to_screen": False, "video_width": 1920, "video_height": n}
+            if name in ("dfxp", "dfxp-single"):
+                ca["write_inline_positioning"] = cb["write_inline_positioning"] = False
+            self._do({"op": "new_set", "set": a})
+            ia = len(self.st.sets) - 1
+            self._do({"op": "new_set", "set": b})
+            ib = len(self.st.sets) - 1
+            first = data.draw(st.booleans())
+            for i_, c_ in ((ia, ca), (ib, cb)) if first else ((ib, cb), (ia, ca)):
+                self._do({"op": "write", "set_i": i_, "writer": name, "ctor": c_, "call": {}, "pooled": False})
 
         def teardown(self):
             case = {"tier": tier, "steps": self.steps}
